@@ -23,6 +23,7 @@ import QV.Real
 import QV.Model.Cplx
 import QV.Lemmas.CplxTensor
 import QV.Lemmas.CplxStorage
+import QV.Lemmas.CplxEinsumEq
 
 namespace QV.Props
 namespace C15
@@ -751,6 +752,100 @@ theorem C15_rejects_einsum {a b : Tensor R} {sa sb : List Nat} (eq : EinEq) (ha 
     rw [einsumR_err (x := reT a sa) (y := imT b sb) (sa := sa) (sb := sb) rfl rfl hok]; rfl
   cases rp <;> cases ip <;> simp_all [einsum, einsumFull]
 
+/-! #### the equation string: implicit output, ellipsis (everything `torch.einsum` accepts for two operands) -/
+
+/-- **explicit equations without ellipsis are taken as written** (so every theorem above applies to them), provided each
+operand has one subscript per axis; otherwise torch's `RuntimeError`. -/
+theorem C15_einsum_explicit_equation (a b o sa sb : List Nat) :
+    elabEq ⟨a.map Tok.lab, b.map Tok.lab, some (o.map Tok.lab)⟩ sa sb
+      = if a.length = sa.length ∧ b.length = sb.length then .ok ⟨a, b, o⟩ else .error .RuntimeError := by
+  unfold elabEq ellCover
+  simp only [labels_map_lab, ellCount_map_lab, expandSub_map_lab]
+  by_cases h1 : a.length = sa.length <;> by_cases h2 : b.length = sb.length <;> simp [h1, h2]
+
+/-- **implicit output** (`"ij,jk"`, no `->`): the operands' subscripts are kept and the output consists of exactly the
+labels that occur ONCE in the two operands together, in strictly increasing order of their character codes. -/
+theorem C15_einsum_implicit_output (a b sa sb : List Nat) :
+    elabEq ⟨a.map Tok.lab, b.map Tok.lab, none⟩ sa sb
+      = (if a.length = sa.length ∧ b.length = sb.length then .ok ⟨a, b, onceLabels (a ++ b)⟩ else .error .RuntimeError) ∧
+    (∀ l, l ∈ onceLabels (a ++ b) ↔ (a ++ b).count l = 1) ∧ (onceLabels (a ++ b)).Pairwise (· < ·) := by
+  refine ⟨?_, fun l => mem_onceLabels, onceLabels_sorted _⟩
+  unfold elabEq ellCover
+  simp only [labels_map_lab, ellCount_map_lab, expandSub_map_lab]
+  by_cases h1 : a.length = sa.length <;> by_cases h2 : b.length = sb.length <;> simp [h1, h2, ellLabels]
+
+/-- **ellipsis**: what an accepted raw equation is turned into. Each operand has at most one `...`, which covers the
+`k = rank − #named` axes its named subscripts leave over (`ellCover`); the equation gets `K = max ka kb` ellipsis labels, all
+larger than every named label (fresh); each operand's `...` is replaced by its labels (`expandSub`, see
+`C15_einsum_ellipsis_alignment`), after which it has one label per axis; an explicit output has at most one `...`,
+replaced by ALL `K` labels (without it the ellipsis axes are contracted like any label missing from the output:
+`C15_sumLabels_spec`); an implicit output is the `K` ellipsis labels followed by the sorted once-only labels. -/
+theorem C15_einsum_ellipsis_spec {raw : RawEq} {sa sb : List Nat} {eq : EinEq} (h : elabEq raw sa sb = .ok eq) :
+    ∃ ka kb base, ellCover raw.a sa.length = some ka ∧ ellCover raw.b sb.length = some kb ∧
+      eq.a = expandSub base (max ka kb) ka raw.a ∧ eq.b = expandSub base (max ka kb) kb raw.b ∧
+      eq.a.length = sa.length ∧ eq.b.length = sb.length ∧
+      (∀ l ∈ Tok.labels raw.a ++ Tok.labels raw.b, l < base) ∧
+      (raw.out = none →
+        eq.out = ellLabels base (max ka kb) (max ka kb) ++ onceLabels (Tok.labels raw.a ++ Tok.labels raw.b)) ∧
+      (∀ o, raw.out = some o → Tok.ellCount o ≤ 1 ∧ eq.out = expandSub base (max ka kb) (max ka kb) o ∧
+        ∀ l ∈ Tok.labels o, l < base) := by
+  unfold elabEq at h
+  rcases hka : ellCover raw.a sa.length with _ | ka
+  · simp [hka] at h
+  rcases hkb : ellCover raw.b sb.length with _ | kb
+  · simp [hka, hkb] at h
+  simp only [hka, hkb] at h
+  have hlen : ∀ {ts : List Tok} {r k : Nat} (base K : Nat), ellCover ts r = some k →
+      (expandSub base K k ts).length = r := by
+    intro ts r k base K hc
+    rw [expandSub_length]
+    rcases ellCover_eq_some.1 hc with ⟨h0, h1, h2⟩ | ⟨h0, h1⟩
+    · rw [h0, h1]; simp
+    · rw [h0]; omega
+  rcases ho : raw.out with _ | o
+  · simp only [ho, List.append_nil] at h
+    cases h
+    have hb := le_foldl_max (Tok.labels raw.a ++ Tok.labels raw.b) 0
+    exact ⟨ka, kb, _, rfl, rfl, rfl, rfl, hlen _ _ hka, hlen _ _ hkb, fun l hl => Nat.lt_succ_of_le (hb.2 l hl),
+      fun _ => rfl, fun o ho' => (by cases ho')⟩
+  · simp only [ho] at h
+    split_ifs at h with he
+    cases h
+    have hb := le_foldl_max (Tok.labels raw.a ++ Tok.labels raw.b ++ Tok.labels o) 0
+    refine ⟨ka, kb, _, rfl, rfl, rfl, rfl, hlen _ _ hka, hlen _ _ hkb,
+      fun l hl => Nat.lt_succ_of_le (hb.2 l (List.mem_append_left _ hl)), fun hn => (by cases hn), fun o' ho' => ?_⟩
+    cases ho'
+    exact ⟨he, rfl, fun l hl => Nat.lt_succ_of_le (hb.2 l (List.mem_append_right _ hl))⟩
+
+/-- **ellipsis alignment**: in an operand `pre ... post` the named labels keep their places around the ellipsis labels;
+the `K` ellipsis labels are `base, …, base+K-1`; an ellipsis covering `k ≤ K` axes carries the LAST `k` of them, i.e. the
+axis `j` positions from the right end of ANY operand's ellipsis carries the same label `base + (K-1-j)`: ellipsis axes
+are matched from the right (and then broadcast by the size rule of `einOk`, like named labels). -/
+theorem C15_einsum_ellipsis_alignment (base : Nat) {K k : Nat} (hk : k ≤ K) (pre post : List Nat) :
+    expandSub base K k (pre.map Tok.lab ++ Tok.ell :: post.map Tok.lab) = pre ++ ellLabels base K k ++ post ∧
+    ellLabels base K K = (List.range K).map (fun i => base + i) ∧
+    ellLabels base K k = (ellLabels base K K).drop (K - k) ∧
+    ∀ j, j < k → (ellLabels base K k).reverse[j]? = some (base + (K - 1 - j)) := by
+  refine ⟨?_, ellLabels_full base K, ellLabels_suffix base hk, fun j hj => ellLabels_from_right base hk hj⟩
+  rw [expandSub_append, expandSub_map_lab]
+  simp [expandSub, expandSub_map_lab]
+
+/-- **einsum on an equation string**: an accepted string behaves as its elaborated explicit equation (to which
+`C15_einsum`, `C15_einsum_flags`, `C15_rejects_einsum` apply); a string torch rejects raises `RuntimeError` as soon as a
+part is requested; with neither part requested the result is `None` whatever the string. -/
+theorem C15_einsum_string {a b : Tensor R} {sa sb : List Nat} (raw : RawEq) (ha : IsCplx a sa) (hb : IsCplx b sb)
+    (rp ip : Bool) :
+    (∀ eq, elabEq raw sa sb = .ok eq → einsumS raw a b rp ip = einsum eq a b rp ip) ∧
+    (∀ e, elabEq raw sa sb = .error e → rp = true ∨ ip = true → einsumS raw a b rp ip = .error .RuntimeError) ∧
+    einsumS raw a b false false = .ok .none := by
+  have hsa : a.shape.drop 1 = sa := by rw [ha.1]; rfl
+  have hsb : b.shape.drop 1 = sb := by rw [hb.1]; rfl
+  refine ⟨fun eq h => ?_, fun e h hp => ?_, ?_⟩
+  · unfold einsumS; rw [hsa, hsb, h]
+  · unfold einsumS; rw [hsa, hsb, h]
+    exact C15_rejects_einsum badEq ha hb (by simp [einOk, badEq]) rp ip hp
+  · unfold einsumS; split <;> rfl
+
 /-- **kronecker_prod** for arbitrary (NON-SQUARE) matrices `a×b`, `c×d`: shape `(a·c)×(b·d)` and
 entry `(i·c + k, j·d + l) = x_ij · y_kl`. -/
 theorem C15_kronecker_prod {x y : Tensor R} {a b c d : Nat} (hx : IsCplx x [a, b]) (hy : IsCplx y [c, d]) :
@@ -1097,6 +1192,75 @@ theorem C15_einsum_ib_ibg {a y : Tensor ℝ} {n B G : ℕ} (ha : IsCplx a [n, B]
   have e1 : (if n = 1 then 0 else i) = i := by split_ifs with h <;> omega
   have e2 : (if B = 1 then 0 else b) = b := by split_ifs with h <;> omega
   have e3 : (if G = 1 then 0 else g) = g := by split_ifs with h <;> omega
+  simp [opIdx, envVal, List.lookup, e1, e2, e3]
+
+/-- the implicit-output string `"ij,jk"` (no `->`; character codes `i j k` = 105 106 107) elaborates to `ij,jk->ik` and
+is the complex matrix product: `z[i, k] = Σ_j a[i, j] · b[j, k]`. -/
+theorem C15_einsum_implicit_matmul {a b : Tensor ℝ} {m n p : ℕ} (ha : IsCplx a [m, n]) (hb : IsCplx b [n, p]) :
+    ∃ z, einsumS ⟨[.lab 105, .lab 106], [.lab 106, .lab 107], none⟩ a b true true = .ok (.cplx z) ∧ IsCplx z [m, p] ∧
+      ∀ i k, i < m → k < p →
+        dec (centry z [i, k]) = ∑ j : Fin n, dec (centry a [i, j.val]) * dec (centry b [j.val, k]) := by
+  have hel : elabEq ⟨[.lab 105, .lab 106], [.lab 106, .lab 107], none⟩ [m, n] [n, p]
+      = .ok ⟨[105, 106], [106, 107], [105, 107]⟩ := by rfl
+  have hS := (C15_einsum_string (R := ℝ) _ ha hb true true).1 _ hel
+  have hok : einOk ⟨[105, 106], [106, 107], [105, 107]⟩ [m, n] [n, p] = true := by
+    simp [einOk, operandOk, labelDim, labelSize, List.lookup, nodupB, bdim]
+  obtain ⟨z, hz1, hzf, _, _⟩ := C15_einsum ⟨[105, 106], [106, 107], [105, 107]⟩ ha hb hok
+  obtain ⟨z', hz', hc, he⟩ := C15_einsum_complex ⟨[105, 106], [106, 107], [105, 107]⟩ ha hb hok
+  have hzz : z' = z := by rw [hzf] at hz'; injection hz' with h; exact h.symm
+  subst hzz
+  have hsh : (EinEq.out ⟨[105, 106], [106, 107], [105, 107]⟩).map
+      (einSize ⟨[105, 106], [106, 107], [105, 107]⟩ [m, n] [n, p]) = [m, p] := by
+    simp [einSize, labelSize, labelDim, List.lookup, bdim]
+  have hs0 : sumLabels ⟨[105, 106], [106, 107], [105, 107]⟩ = [106] := by decide
+  have hsz : einSize ⟨[105, 106], [106, 107], [105, 107]⟩ [m, n] [n, p] 106 = n := by
+    simp [einSize, labelSize, labelDim, List.lookup_cons, bdim]
+  rw [hsh] at hc he
+  refine ⟨z', by rw [hS]; exact hz1, hc, fun i k hi hk => ?_⟩
+  rw [he [i, k] (by simp [hi, hk]), hs0]
+  simp only [List.map_cons, List.map_nil, hsz, allIdx]
+  rw [flatMap_singletons, List.map_map, ← range_map_sum (fun j => dec (centry a [i, j]) * dec (centry b [j, k])) n]
+  congr 1
+  refine List.map_congr_left (fun j hj => ?_)
+  have hj' : j < n := List.mem_range.1 hj
+  have e1 : (if m = 1 then 0 else i) = i := by split_ifs with h <;> omega
+  have e2 : (if n = 1 then 0 else j) = j := by split_ifs with h <;> omega
+  have e3 : (if p = 1 then 0 else k) = k := by split_ifs with h <;> omega
+  simp [opIdx, envVal, List.lookup, e1, e2, e3]
+
+/-- the ellipsis string `"...j,jk->...k"` on a batch of row vectors `(B, n)` and a matrix `(n, p)`: the ellipsis of the
+first operand covers its batch axis, the second operand has none, and `z[t, k] = Σ_j a[t, j] · b[j, k]`. -/
+theorem C15_einsum_ellipsis_batched {a b : Tensor ℝ} {B n p : ℕ} (ha : IsCplx a [B, n]) (hb : IsCplx b [n, p]) :
+    ∃ z, einsumS ⟨[.ell, .lab 106], [.lab 106, .lab 107], some [.ell, .lab 107]⟩ a b true true = .ok (.cplx z) ∧
+      IsCplx z [B, p] ∧
+      ∀ t k, t < B → k < p →
+        dec (centry z [t, k]) = ∑ j : Fin n, dec (centry a [t, j.val]) * dec (centry b [j.val, k]) := by
+  have hel : elabEq ⟨[.ell, .lab 106], [.lab 106, .lab 107], some [.ell, .lab 107]⟩ [B, n] [n, p]
+      = .ok ⟨[108, 106], [106, 107], [108, 107]⟩ := by rfl
+  have hS := (C15_einsum_string (R := ℝ) _ ha hb true true).1 _ hel
+  have hok : einOk ⟨[108, 106], [106, 107], [108, 107]⟩ [B, n] [n, p] = true := by
+    simp [einOk, operandOk, labelDim, labelSize, List.lookup, nodupB, bdim]
+  obtain ⟨z, hz1, hzf, _, _⟩ := C15_einsum ⟨[108, 106], [106, 107], [108, 107]⟩ ha hb hok
+  obtain ⟨z', hz', hc, he⟩ := C15_einsum_complex ⟨[108, 106], [106, 107], [108, 107]⟩ ha hb hok
+  have hzz : z' = z := by rw [hzf] at hz'; injection hz' with h; exact h.symm
+  subst hzz
+  have hsh : (EinEq.out ⟨[108, 106], [106, 107], [108, 107]⟩).map
+      (einSize ⟨[108, 106], [106, 107], [108, 107]⟩ [B, n] [n, p]) = [B, p] := by
+    simp [einSize, labelSize, labelDim, List.lookup, bdim]
+  have hs0 : sumLabels ⟨[108, 106], [106, 107], [108, 107]⟩ = [106] := by decide
+  have hsz : einSize ⟨[108, 106], [106, 107], [108, 107]⟩ [B, n] [n, p] 106 = n := by
+    simp [einSize, labelSize, labelDim, List.lookup_cons, bdim]
+  rw [hsh] at hc he
+  refine ⟨z', by rw [hS]; exact hz1, hc, fun t k ht hk => ?_⟩
+  rw [he [t, k] (by simp [ht, hk]), hs0]
+  simp only [List.map_cons, List.map_nil, hsz, allIdx]
+  rw [flatMap_singletons, List.map_map, ← range_map_sum (fun j => dec (centry a [t, j]) * dec (centry b [j, k])) n]
+  congr 1
+  refine List.map_congr_left (fun j hj => ?_)
+  have hj' : j < n := List.mem_range.1 hj
+  have e1 : (if B = 1 then 0 else t) = t := by split_ifs with h <;> omega
+  have e2 : (if n = 1 then 0 else j) = j := by split_ifs with h <;> omega
+  have e3 : (if p = 1 then 0 else k) = k := by split_ifs with h <;> omega
   simp [opIdx, envVal, List.lookup, e1, e2, e3]
 
 end complex
